@@ -462,10 +462,12 @@ class TLSRecordLayer(object):
         :rtype: iterable
         :returns: A generator; see above for details.
         """
-        try:
-            if self.closed:
-                raise TLSClosedConnectionError("attempt to write to closed connection")
+        # a write attempt on a closed connection must not influence the
+        # resumability of its session
+        if self.closed:
+            raise TLSClosedConnectionError("attempt to write to closed connection")
 
+        try:
             applicationData = ApplicationData().create(bytearray(s))
             for result in self._sendMsg(applicationData, \
                                         randomizeFirstBlock=True):
